@@ -387,9 +387,14 @@ impl Lmdb {
             let (key, val) = i?;
             let kind = u16::from_be_bytes(key[0..2].try_into().unwrap()).into();
             let author = Pubkey::from_bytes(key[2..34].try_into().unwrap());
-            let mut d = key[35..35 + 182].to_owned();
             let when = Time::from_u64(val);
-            d.truncate(key[34] as usize);
+            // key_naddr_index pads an identifier of up to 182 bytes to 182 bytes, but
+            // appends a longer one whole (the key is then longer than 217 bytes)
+            let d = if key.len() > 35 + 182 {
+                key[35..].to_owned()
+            } else {
+                key[35..35 + key[34] as usize].to_owned()
+            };
             output.push((Addr { kind, author, d }, when));
         }
         Ok(output)
